@@ -35,7 +35,7 @@ import enum
 import itertools
 import struct
 import uuid as _uuid
-from typing import Any, Dict, List, Optional, Sequence, Tuple
+from typing import Any, ClassVar, Dict, List, Optional, Sequence, Tuple
 
 import lazy_object_proxy
 
@@ -78,11 +78,57 @@ class BFDC:
     num: Any = se.bitfield_field(bits=5)
 
 
+class TexGenLike(dtypes.IntEnum):      # values pre-shifted to their bit position, as templates.TexGen (shift=False layout)
+    DEFAULT = 0
+    PLANAR = 2
+    SPHERICAL = 4
+    CYLINDRICAL = 6
+
+
+class ParcelTypeLike(dtypes.IntEnum):
+    PUBLIC = 0
+    OWNED = 1
+    GROUP = 2
+    SELF = 3
+    FOR_SALE = 4
+    AUCTION = 5
+
+
+class ParcelFlagsLike(dtypes.IntFlag):
+    UNUSED = 0x8
+    HIDDEN_AVS = 0x10
+    SOUND_LOCAL = 0x20
+    WEST_LINE = 0x40
+    SOUTH_LINE = 0x80
+
+
+@dataclasses.dataclass
+class MediaFlagsLike:                  # templates.MediaFlags / MEDIA_FLAGS = BitfieldDataclass(MediaFlags, U8, shift=False)
+    WebPage: Any = se.bitfield_field(bits=1, adapter=se.BoolAdapter(), default=False)
+    TexGen: Any = se.bitfield_field(bits=2, adapter=se.IntEnum(TexGenLike), default=TexGenLike.DEFAULT)
+    _Unused: Any = se.bitfield_field(bits=5, default=0)
+
+
+@dataclasses.dataclass
+class ParcelGridInfoLike:              # templates.ParcelGridInfo: prim spec and shift come from class attributes
+    PRIM_SPEC: ClassVar[Any] = se.U8
+    SHIFT: ClassVar[bool] = False
+    Type: Any = se.bitfield_field(bits=3, adapter=se.IntEnum(ParcelTypeLike))
+    Flags: Any = se.bitfield_field(bits=5, adapter=se.IntFlag(ParcelFlagsLike))
+
+
+_BF_ADAPTERS = {"E2": lambda: se.IntEnum(E2), "bool": lambda: se.BoolAdapter(), "TG": lambda: se.IntEnum(TexGenLike),
+                "PT": lambda: se.IntEnum(ParcelTypeLike), "PF": lambda: se.IntFlag(ParcelFlagsLike)}
 BITFIELD_SCHEMAS = {
     "full8": (("a", 3), ("b", 5)),
     "part16": (("a", 3), ("b", 5)),          # fewer bits than the 16-bit primitive
     "adapt8": (("kind", 2, "E2"), ("on", 1, "bool"), ("num", 5)),
+    "media8": (("WebPage", 1, "bool"), ("TexGen", 2, "TG"), ("_Unused", 5)),      # MEDIA_FLAGS layout (used with shift=False)
+    "parcel8": (("Type", 3, "PT"), ("Flags", 5, "PF")),                           # ParcelGridInfo layout (shift=False)
 }
+# BitfieldDataclass layouts: name -> (dataclass, shift, schema id, pass prim/shift explicitly?)
+BFDC_LAYOUTS = {"basic": (BFDC, True, "adapt8", True), "media": (MediaFlagsLike, False, "media8", True),
+                "parcel": (ParcelGridInfoLike, False, "parcel8", False)}
 
 PRIMS: Dict[str, Tuple[str, list]] = {
     "U8": ("B", [0, 1, 2, 0x7F, 0x80, 0xFE, 0xFF]),
@@ -210,8 +256,7 @@ def _bitfield_schema(schema_id: str):
     out = {}
     for ent in BITFIELD_SCHEMAS[schema_id]:
         if len(ent) == 3:
-            ad = se.IntEnum(E2) if ent[2] == "E2" else se.BoolAdapter()
-            out[ent[0]] = se.BitfieldEntry(bits=ent[1], adapter=ad)
+            out[ent[0]] = se.BitfieldEntry(bits=ent[1], adapter=_BF_ADAPTERS[ent[2]]())
         else:
             out[ent[0]] = ent[1]
     return out
@@ -295,7 +340,10 @@ def build(desc) -> Any:
     if k == "bitfield":
         return se.BitField(getattr(se, d[1]), _bitfield_schema(d[2]), shift=d[3])
     if k == "bfdc":
-        return se.BitfieldDataclass(BFDC, getattr(se, d[1]))
+        cls, shift, _, explicit = BFDC_LAYOUTS[d[2] if len(d) > 2 else "basic"]
+        if len(d) == 2:
+            return se.BitfieldDataclass(cls, getattr(se, d[1]))
+        return se.BitfieldDataclass(cls, getattr(se, d[1]), shift=shift) if explicit else se.BitfieldDataclass(cls)
     if k == "booladapter":
         return se.BoolAdapter(getattr(se, d[1]))
     if k == "expr":
@@ -854,7 +902,7 @@ _LABEL = {"prim": lambda d: d[1], "bytearray": lambda d: f"ByteArray({d[1]})", "
           "packedquat": lambda d: f"PackedQuat({d[1]})", "null": lambda d: "Null",
           "qfloat": lambda d: f"QuantizedFloat({d[1]},{d[2]},{d[3]})", "fixedpoint": lambda d: f"FixedPoint({d[1]},{d[2]},{d[3]},{d[4]})",
           "intenum": lambda d: f"IntEnum({d[1]}{',strict' if d[2] else ''})", "intflag": lambda d: f"IntFlag({d[1]})",
-          "bitfield": lambda d: f"BitField({d[1]},{d[2]}{'' if d[3] else ',noshift'})", "bfdc": lambda d: f"BitfieldDataclass({d[1]})",
+          "bitfield": lambda d: f"BitField({d[1]},{d[2]}{'' if d[3] else ',noshift'})", "bfdc": lambda d: f"BitfieldDataclass({d[1]}{',' + d[2] if len(d) > 2 else ''})",
           "booladapter": lambda d: f"BoolAdapter({d[1]})", "expr": lambda d: f"ExprAdapter({d[1]})", "strenum": lambda d: "StringEnumAdapter",
           "optprefixed": lambda d: "OptionalPrefixed", "ifpresent": lambda d: "IfPresent",
           "coll": lambda d: "Collection(%s)" % ("greedy" if d[1] is None else (f"fixed{d[1]}" if isinstance(d[1], int) else d[1])),
@@ -948,17 +996,34 @@ def probes(desc) -> List[Probe]:
         rows = _dom(d, [])
         if rows and len(d[1]) >= 2:
             out.append(Probe(list(rows[0].rich)[:-1], "arity-1"))
-    elif k == "bitfield":
-        names = [e[0] for e in BITFIELD_SCHEMAS[d[2]]]
-        bits = [e[1] for e in BITFIELD_SCHEMAS[d[2]]]
-        for i, n in enumerate(names):
-            if len(BITFIELD_SCHEMAS[d[2]][i]) == 3 and BITFIELD_SCHEMAS[d[2]][i][2] == "bool":
+    elif k in ("bitfield", "bfdc"):
+        if k == "bitfield":
+            schema, shift, cls = BITFIELD_SCHEMAS[d[2]], d[3], None
+        else:
+            cls, shift, sid, _ = BFDC_LAYOUTS[d[2] if len(d) > 2 else "basic"]
+            schema = BITFIELD_SCHEMAS[sid]
+        base = {e[0]: (False if len(e) == 3 and e[2] == "bool" else 0) for e in schema}
+        off = 0
+        for i, ent in enumerate(schema):
+            name, bits = ent[0], ent[1]
+            if len(ent) == 3 and ent[2] == "bool":
+                off += bits
                 continue  # BoolAdapter coerces any value to 0/1: nothing is out of range
-            v = {m: 0 for m in names}
-            v[n] = (1 << bits[i]) if d[3] else (1 << sum(bits[:i + 1]))
-            out.append(Probe(v, f"overflow:{n}"))
-    elif k == "bfdc":
-        out.append(Probe(BFDC(kind=0, on=False, num=32), "overflow:num"))
+            if shift:
+                bad_vals = [(1 << bits, "overflow"), (-1, "negative")]
+            else:
+                bad_vals = [(1 << (off + bits), "overflow"), (-1, "negative")]
+                if off > 0:  # bits below the member's own offset would be OR-ed into the lower neighbours
+                    bad_vals += [(1, "low-bit0"), (1 << (off - 1), "low-bit-adjacent"), ((1 << off) | (1 << (off - 1)), "straddle-low")]
+                    if bits > 1:
+                        bad_vals.append((((1 << bits) - 1) << off | 1, "straddle-all"))
+            for bv, why in {bv: (bv, why) for bv, why in reversed(bad_vals)}.values():
+                v = dict(base)
+                v[name] = bv
+                out.append(Probe(v if cls is None else cls(**v), f"{why}:{name}"))
+                if cls is not None:
+                    out.append(Probe(v, f"{why}:{name}:pod"))
+            off += bits
     elif k == "typedbytearray" and _closed(d):
         mx = PRIM_RANGE[d[1]][1]
         for v in _dom(d[2], []):
@@ -997,6 +1062,8 @@ LEAVES: List[tuple] = (
        ("intflag", "U8"), ("intflag", "S8"), ("intflag", "U16"),
        ("bitfield", "U8", "full8", True), ("bitfield", "U8", "full8", False), ("bitfield", "U16", "part16", True),
        ("bitfield", "U8", "adapt8", True), ("bfdc", "U8"), ("booladapter", "U8"), ("expr", "U8"),
+       ("bitfield", "U8", "media8", False), ("bitfield", "U8", "parcel8", False), ("bitfield", "U16", "part16", False),
+       ("bfdc", "U8", "media"), ("bfdc", "U8", "parcel"),      # MEDIA_FLAGS-like and ParcelGridInfo-like real-world layouts
        ("strenum", CSTR), ("strenum", ("str", "U8", True))]
 )
 BASIS: List[tuple] = [U8, P("S16"), ("bytearray", "U8"), CSTR, ("bytesgreedy",), ("uuid",), ("intenum", "U8", False),
